@@ -9,6 +9,65 @@ CLAIMED = {
         note="trusted: Kani's MIR->goto translation, CBMC, CaDiCaL, z3/cvc5; probe lemma bounded to tables of 2^16 groups; hooks v_capacity_to_buckets/v_calculate_layout_for/v_probe_next are thin wrappers (src/raw/verif_hooks.rs)",
         design="7 (C17)"),
 }
+STEP = ("inductive step harnesses over the real code: symbolic pre-state (arbitrary control bytes, elements, hash table H[K], occupancy counts) "
+        "satisfying the representation invariant, ONE API call with symbolic arguments, result compared with a reference model and the invariant re-established; "
+        "decided by Kani/CBMC (CaDiCaL) with per-loop unwind bounds derived from the code and unwinding assertions on")
+TRUST = ("trusted: Kani 0.68 MIR->goto translation, CBMC 6.11, CaDiCaL; Kani's allocator model; the invariant Inv/Inv_safe of DESIGN section 3 over-approximates the reachable states of "
+         "a given table size, so the step covers histories of any length within that size; table sizes are bounded (see bounds per harness in the evidence file); "
+         "uninitialised reads, aliasing models and threads are not checked")
+def C(pid, technique, text, note, design):
+    CLAIMED[pid] = dict(technique=technique, text=text, note=note, design=design)
+C("C01", "bounded model checking of HashMap step harnesses (Kani/CBMC) against an association-list model, hasher = symbolic table",
+  STEP + ". Calls: get/get_mut/contains_key/get_key_value (also through an Equivalent borrowed form), insert (overwrite keeps the stored key), remove/remove_entry, retain, clear, reserve, shrink_to(_fit), entry_ref and Occupied-entry methods; table sizes 4, 8, 16 buckets, growth 4->8 and 8->16; every hash plan is one symbolic variable",
+  TRUST + "; HashMap::entry(K)+VacantEntry::insert, try_insert and extend are thorough-tier only (engine limitation, DESIGN section 0); in-place rehash with element moves thorough-tier only", "7 (C01), 0")
+C("C02", "CBMC's memory-safety checks (dereference validity, same-object pointer arithmetic, alignment, overflow, unreachable_unchecked, debug assertions) on every harness + layout/ZST/leaked-guard harnesses",
+  "every instruction executed in every harness is checked for invalid/dead/out-of-bounds dereference, cross-object pointer arithmetic, misalignment, arithmetic overflow and reachable unreachable_unchecked, from symbolic pre-states; own harnesses instantiate the structural operations for element layouts u16, u64, [u64;3], align-32, 200-byte and zero-sized elements, and leak (mem::forget) iter_mut/drain/extract_if/into_iter/entries part-way and then use and drop the collection",
+  TRUST + "; layouts at N=4/8 only; the layout arithmetic for all sizes/alignments is C17", "7 (C02)")
+C("C03", "bounded model checking with a per-id drop ledger element type and an allocation-ledger allocator (Kani/CBMC)",
+  STEP + ". Element type asserts 'dropped at most once' in its Drop and the harness asserts 'exactly once or handed to the caller' per id after remove, clear, retain, extract_if/drain/into_iter cut at a symbolic point, shrink, grow, clone, clone_from into an occupied target, drop; the allocator ledger checks every block is returned once with its layout, nothing stays allocated, and an unused collection never allocates",
+  TRUST + "; N <= 8 (16 for drop); cut points <= 3 items", "7 (C03)")
+C("C04", "bounded model checking with emulated unwinding (cfg-guarded unwind points run the real scope guards) + callback-time validity assertions; counterexamples replayed natively with real panics",
+  "a callback 'panics' at its symbolic k-th invocation by setting a flag; cfg(hashbrown_verif) early returns placed directly after the callback call sites leave each frame the way an unwind would, so the REAL guard closures run on the real state; afterwards: invariant, len()==#FULL==iteration count, every element present or dropped exactly once, growth leaves the table bit-identical and frees the new block. Covered: hasher panic in grow (4->8, 8->16) and in the in-place rehash routine (hook entry, N<=8), Clone panic in clone_from (4 structural paths), Drop panic in clear/drop/drain/into_iter/retain/shrink, predicate and replace_entry_with closures by callback-time validity. Found the rehash-guard defect (fixed, known_findings.json)",
+  TRUST + "; trusted additionally: early return == unwinding for the instrumented frames (every counterexample is replayed with a real panic! under catch_unwind); panics out of hashbrown's own assert!s, Into conversions and extend iterators are outside (DESIGN sections 0 and 5)", "5, 7 (C04), 10")
+C("C05", "bounded model checking with fully nondeterministic Hash and Eq answers (fresh symbolic value per call)",
+  "the hasher returns a fresh arbitrary u64 and eq a fresh arbitrary bool on every call; checked: no memory-safety check fails, every probe loop terminates within the code-derived unwind bounds (unwinding assertions), invariant Inv_safe afterwards, len()==#FULL==iteration count, drop ledger exact; for find, remove, insert (incl. growth), entry, retain, iter_hash, reserve, get_many_mut with closures matching several entries",
+  TRUST + "; N in {4, 8, 16}", "7 (C05)")
+C("C06", "bounded model checking of HashTable step harnesses (Kani/CBMC) against a multiset model with caller-supplied symbolic hashes",
+  STEP + ". Calls: find/find_mut, find_entry+remove and re-insert through the returned VacantEntry, entry (Occupied/Vacant, also at growth_left==0), insert_unique incl. duplicates and growth, reserve, shrink_to, clear, iter_hash (every element with that hash, no bucket twice, fused), base cases new/with_capacity; sizes 4, 8, 16 (two groups, tombstones) on the portable back-end, 4 and 8 on SSE2",
+  TRUST + "; in-place rehash with element moves thorough-tier only", "7 (C06), 0")
+C("C07", "bounded model checking of HashSet operations over two independent symbolic sets (different symbolic hashers) against boolean membership vectors",
+  "union/intersection/difference/symmetric_difference driven to exhaustion with per-id counters and size_hint bracketing at every step, is_subset/is_superset/is_disjoint/== (symmetric), the assigning operators |= &= ^= -= (both strategy branches of -=), insert/replace/take/get_or_insert/get_or_insert_with/remove/contains incl. 'a non-equivalent get_or_insert_with never returns'",
+  TRUST + "; sets of 4 and 8 buckets; the by-reference operators and HashSet::entry are thorough-tier only; the post-state after get_or_insert_with's refusal panic is not observable (DESIGN section 0)", "7 (C07)")
+C("C08", "bounded model checking (allocator ledger) + full-width arithmetic harnesses on capacity_to_buckets",
+  "capacity()>=len(); reserve(n)/with_capacity(n) give room for n; one-step lemma: from any state with growth_left>=1 an insert makes no allocator call and lowers the spare room by at most one; new/with_capacity(0) allocate nothing; clear/drain keep the block; allocation_size()==bytes held (ledger); shrink_to(m): contents kept, never enlarges, capacity>=max(len,min(m,cap)), frees everything iff len==0 and m==0, bucket count == what with_capacity(max(len,m)) picks; arithmetic part over all 64-bit capacities",
+  TRUST + "; the induction over capacity()-len() inserts is a paper step", "7 (C08)")
+C("C09", "bounded model checking of every iterator from symbolic occupancy patterns (incl. tombstones, first/last bucket, several groups)",
+  "iter/iter_mut/into_iter/drain of HashTable and the HashMap/HashSet wrappers (keys, values, values_mut, into_keys, into_values): next() driven to a symbolic cut with size_hint()==(r,Some(r)) and len()==r at every step, then continued by next()/fold()/clone(); every FULL slot exactly once, nothing else, fused, Default iterators empty, zero-sized elements",
+  TRUST + "; N in {4, 8, 16} quick, 32/64 thorough", "7 (C09)")
+C("C10", "bounded model checking with an arbitrary predicate truth table and call counters",
+  "retain: predicate called once per element, exactly the true ones kept, &mut writes persist, probe chains intact afterwards (invariant incl. 'still findable'); extract_if driven <=3 steps then dropped: yielded == visited and selected, everything else still present; drain: each element once, table empty with the same block and usable; HashTable, HashMap, HashSet, zero-sized elements",
+  TRUST + "; retain N<=8, extract_if N=4 in the quick tier (larger thorough)", "7 (C10)")
+C("C11", "bounded model checking with a clone/drop ledger element type",
+  "clone(): identical layout in a different block, each element cloned once, a removal on either side leaves the other untouched; clone_from for target/source bucket counts {4,8,unallocated}: old contents dropped once, result equals the source, old block returned; ==: two maps/sets with different symbolic hashers, capacities and tombstones are equal exactly when their models are equal, symmetric",
+  TRUST + "; == at 4x4 buckets in the quick tier", "7 (C11)")
+C("C12", "bounded model checking: all 2^64 values of `additional` against a refusing allocator; allocator refusing the request on non-empty tables",
+  "try_reserve on an unallocated table with an allocator that refuses everything, for ALL values of additional and element types (), u8, u32, [u64;3], align-32 and two huge never-instantiated types: never panics, CapacityOverflow exactly when the table is not representable (u128 reference), otherwise AllocError carrying the refused layout, every requested layout valid; on non-empty tables a refusal leaves the table bit-identical, nothing dropped or leaked, a grant gives capacity>=len+additional",
+  TRUST + "; granted requests use concrete additional (a symbolic granted size does not finish)", "7 (C12)")
+C("C13", "three lemmas: step harnesses on the real code, full-width arithmetic harness, SMT lemma (probe coverage)",
+  "L1: insert/entry leave the bucket count unchanged unless items+1 > capacity/2 and remove never changes it; L2 (all table sizes, arithmetic on the real capacity_to_buckets): the next size is at most twice the current and at most 8x the live elements; free-slot accounting (no allocation while growth_left>=1); termination: unwinding assertions with code-derived bounds on every probe loop from every Inv_safe state incl. tombstone-saturated tables and absent keys, under arbitrary hash answers, plus C17's probe-coverage lemma",
+  TRUST + "; the induction over the history is a paper step", "7 (C13)")
+C("C14", "bounded model checking: entry-style call and plain call compared through the same reference model",
+  STEP + ". entry_ref, raw_entry (from_key/from_key_hashed_nocheck/from_hash), raw_entry_mut (or_insert, insert, insert_hashed_nocheck, insert_with_hasher, remove_entry, insert_key, and_replace_entry_with, unused Vacant), rustc_entry (feature rustc-internal-api: or_insert, insert, remove, unused, insert_entry, and_modify/or_default), HashMap::entry Occupied methods (remove, remove_entry, replace_entry_with, and_replace_entry_with) and unused Vacant; also at full load (growth 4->8)",
+  TRUST + "; HashMap::entry(K)+VacantEntry::insert and HashSet::entry thorough-tier only (DESIGN section 0)", "7 (C14)")
+C("C15", "bounded model checking of get_many_mut incl. sloppy (nondeterministic) equality closures",
+  "HashTable::get_many_mut for 0..3 requests and HashMap::get_many_mut/get_many_key_value_mut: assertions after the call state 'returns => pointers pairwise distinct, each into a live slot holding the requested element, absent => None, sentinel writes land exactly there'; with pairwise distinct requests the documented panic must be unreachable; with duplicates or sloppy closures it is the only other outcome",
+  TRUST + "; N in {4, 8, 16}", "7 (C15)")
+C("C19", "bounded model checking of the sequential core of the rayon adaptors along explicitly driven split trees",
+  "RawIterRange::split: for fixed tree shapes (depth <= 2, with and without a consumed prefix) the leaves partition the remaining FULL buckets; ParIterProducer split/fold_with; ParDrainProducer split (forgets self), fold_with a consumer that becomes full after k items, Drop of unconsumed halves: every element delivered or dropped exactly once; the guard's clear_no_drop leaves a valid empty table",
+  TRUST + "; NOT covered: rayon's scheduler, bridge_unindexed, par_extend/from_par_iter/par_eq and the parallel set operations (they execute on a thread pool the engine cannot run)", "7 (C19)")
+C("C20", "bounded model checking with harness-local Deserializer/MapAccess/SeqAccess/Serializer",
+  "for ALL claimed size hints (Option<usize>, 2^64 values) the first allocator request of map/set/deserialize_in_place is no larger than a 4096-entry table; duplicate keys: last value wins, each key once; an error at each entry position returns Err with every built value dropped once and no block left; deserialize_in_place replaces the contents; Serialize emits every entry exactly once with the right claimed length",
+  TRUST + "; <= 2 entries (3 thorough); real formats are out of scope (the Visitors only see these traits)", "7 (C20)")
 CLAIMED["C18"] = dict(
     technique="bounded model checking of the real group-scanner primitives over every group of bytes on both back-ends (Kani/CBMC), plus the same step harnesses decided on both back-ends against one reference model",
     text="match_tag / match_empty / match_empty_or_deleted / match_full / convert_special_to_empty_and_full_to_deleted / BitMask iteration, leading and trailing zero counts are compared with their byte-by-byte definition for EVERY 16-byte (SSE2) and 8-byte (portable) group and every tag: no input bound, loop-free code; the portable tag-match false positives are allowed exactly as the property states; behavioural identity is decided by running find/insert/remove/iterate/retain step harnesses on both back-ends against the same back-end independent model",
